@@ -22,7 +22,8 @@ def _(self, state, *args, context=None, **kwargs):
     raises(EvaluationException, label="a-sub-evaluation-failed")
     raises(Exception, label="the-command-raised")
     modifies_any("State.metadata")
-    ensures(rec_has(result.metadata, "is_error") and rec_has(result.metadata, "attributes"))
+    ensures(rec_has(result.metadata, "is_error") and rec_has(result.metadata, "attributes") and rec_has(result.metadata, "type_identifier")
+            and rec_has(result.metadata, "vars"), "a-state-made-by-State()")
 
 
 @assumed("liquer.context.MetadataContextMixin.error", params=dict(self=CX, message=Str, position=Any, query=Opt(Str), traceback=Opt(Str)), returns=CX)
@@ -78,7 +79,9 @@ OPAQUE_EA = {"debug": NoneT, "info": NoneT, "warning": NoneT, "store_metadata": 
 def _(self, state, action, extra_parameters=None, cache=None):
     requires(rec_has(state.metadata, "is_error"), "the-input-state-carries-an-error-flag")
     requires(not isnone(self.raw_query), "called-from-evaluate:the-context-knows-its-query")
-    requires(rec_has(state.metadata, "attributes"), "a-state-made-by-State():attributes-present")
+    requires(rec_has(state.metadata, "attributes") and rec_has(state.metadata, "type_identifier") and rec_has(state.metadata, "vars")
+             and rec_has(state.metadata, "query"),
+             "a-state-made-by-State():standard-fields-present")
     g = module("liquer.cache")._cache
     c = ite(isnone(cache), g, unopt(cache))
     extras = not isnone(extra_parameters) and len(unopt(extra_parameters)) > 0
@@ -90,10 +93,20 @@ def _(self, state, action, extra_parameters=None, cache=None):
     modifies_any("State.metadata")
     modifies_any("State.status")
     modifies(self.status, self.is_error, self.vars, c.cmeta, state.context)
-    ensures(implies(not is_file_label and (old(volatile_of(state.metadata)) or extras), volatile_of(result.metadata)),
+    ensures(implies(not is_file_label and (old(volatile_of(state.metadata)) or (extras and log_count("CommandExecutable.__call__") > 0)),
+                    volatile_of(result.metadata)),
             "volatility-propagates-from-the-input-state-and-from-extra-parameters")
     ensures(implies(not is_file_label and rec_has(result.metadata, "caching") and rec_get(result.metadata, "caching"), old(self.caching)),
             "caching-switched-off-in-the-context-stays-off")
+    ensures(implies(not is_file_label and log_count("CommandExecutable.__call__") > 0 and log_raised("CommandExecutable.__call__") == 0
+                    and rec_has(log_result_field("CommandExecutable.__call__", "metadata"), "caching")
+                    and not rec_get(log_result_field("CommandExecutable.__call__", "metadata"), "caching"),
+                    rec_has(result.metadata, "caching") and not rec_get(result.metadata, "caching")),
+            "caching-switched-off-by-or-upstream-of-the-command-stays-off")
+    ensures(implies(not is_file_label and volatile_of(result.metadata) and log_count("CommandExecutable.__call__") > 0
+                    and log_raised("CommandExecutable.__call__") == 0,
+                    old(volatile_of(state.metadata)) or extras or volatile_of(log_result_field("CommandExecutable.__call__", "metadata"))),
+            "a-result-is-volatile-only-for-a-reason")
     ensures(implies(not is_file_label and (log_count("MetadataContextMixin.error") > 0 or log_count("MetadataContextMixin.exception") > 0 or log_raised("CommandExecutable.__call__") > 0),
                     rec_has(result.metadata, "is_error") and rec_get(result.metadata, "is_error")), "every-failure-is-flagged")
     ensures(implies(not is_file_label and log_count("CommandExecutable.__call__") == 0, rec_has(result.metadata, "is_error") and rec_get(result.metadata, "is_error")),
